@@ -51,7 +51,8 @@ func genC04(c *runCfg) error {
 		}
 		// encoder side on the shape families
 		g.w("func VH_C04_%s_enc() {\n", m.Message)
-		g.w("\tshape := vrt.Choose(\"shape\", 0, zzNShapes%s-1)\n\tcls := vrt.Choose(\"cls\", 0, 3)\n", m.Message)
+		g.w("\tshape := vrt.Choose(\"shape\", 0, zzNShapes%s-1)\n\tcls := vrt.Choose(\"cls\", 0, 3+zzNVar%s)\n", m.Message, m.Message)
+		g.w("\tif cls >= 4 {\n\t\tvrt.Assume(shape == 1) // one element of every length of its range, all optional elements present at minimum length\n\t}\n")
 		g.w("\tes := zzSym%s(shape, cls)\n\ta := zzBuild%s(es)\n\tbuf := new(bytes.Buffer)\n", m.Message, m.Message)
 		g.w("\terr := a.Encode%s(buf)\n\tvrt.Assert(err == nil, \"%s: encoding a well-formed message succeeds\")\n", m.Message, m.Message)
 		g.w("\tvrt.Equal(buf.Bytes(), ref.Encode(zzTbl%s, es), \"%s: encoder output equals the table-driven encoding\")\n}\n\n", m.Message, m.Message)
@@ -76,7 +77,8 @@ func genC02(c *runCfg) error {
 	for i := range g.spec.Messages {
 		m := &g.spec.Messages[i]
 		g.w("func VH_C02_%s() {\n", m.Message)
-		g.w("\tshape := vrt.Choose(\"shape\", 0, zzNShapes%s-1)\n\tcls := vrt.Choose(\"cls\", 0, 3)\n", m.Message)
+		g.w("\tshape := vrt.Choose(\"shape\", 0, zzNShapes%s-1)\n\tcls := vrt.Choose(\"cls\", 0, 3+zzNVar%s)\n", m.Message, m.Message)
+		g.w("\tif cls >= 4 {\n\t\tvrt.Assume(shape == 1) // one element of every length of its range, all optional elements present at minimum length\n\t}\n")
 		g.w("\tes := zzSym%s(shape, cls)\n\ta := zzBuild%s(es)\n", m.Message, m.Message)
 		if m.MsgType == nil {
 			g.w("\tbuf := new(bytes.Buffer)\n\terr := a.Encode%s(buf)\n\tvrt.Assert(err == nil, \"%s: encode succeeds\")\n", m.Message, m.Message)
@@ -425,6 +427,43 @@ func VH_C05_dec_mustreject() {
 	if n >= 1 && in[0] == 0x2e {
 		m3 := NewMessage()
 		vrt.Assert(m3.GsmMessageDecode(&in) != nil, "unknown 5GSM type or short header rejected (GsmMessageDecode)")
+	}
+}
+
+// A Message value that already went through a decode (successful or not) of the same family: the result of the
+// next successful decode is still exactly the one body named by its message type. (Across families the library
+// keeps the other family's pointer as it was - an observation recorded in DESIGN.md, not asserted here.)
+func VH_C05_reuse_gsm() {
+	n1 := vrt.Choose("n1", 0, 5)
+	first := vrt.Bytes("first", n1)
+	if n1 > 0 {
+		vrt.Assume(first[0] == 0x2e)
+	}
+	msg := NewMessage()
+	_ = msg.PlainNasDecode(&first)
+	n2 := vrt.Choose("n2", 4, 5)
+	in := vrt.Bytes("in", n2)
+	vrt.Assume(in[0] == 0x2e)
+	if msg.PlainNasDecode(&in) == nil {
+		vrt.Reach("second 5GSM decode accepted")
+		zzC05postGsm(msg, in)
+	}
+}
+
+func VH_C05_reuse_gmm() {
+	n1 := vrt.Choose("n1", 0, 4)
+	first := vrt.Bytes("first", n1)
+	if n1 > 0 {
+		vrt.Assume(first[0] == 0x7e)
+	}
+	msg := NewMessage()
+	_ = msg.PlainNasDecode(&first)
+	n2 := vrt.Choose("n2", 3, 4)
+	in := vrt.Bytes("in", n2)
+	vrt.Assume(in[0] == 0x7e)
+	if msg.PlainNasDecode(&in) == nil {
+		vrt.Reach("second 5GMM decode accepted")
+		zzC05postGmm(msg, in)
 	}
 }
 
